@@ -212,7 +212,7 @@ def h_headcontent_name(ks: int, kt: int, s: str, t: str) -> bool:
         core.hash_deterministic = saved
 
 
-@harness("C18", pre=lambda B, k: 0 <= k <= 7, sel=["k: payload catalogue"], targets=["htmltools._util.hash_deterministic", "htmltools._core.head_content"])
+@harness("C18", pre=lambda B, k: 0 <= k <= 13, sel=["k: payload catalogue (14 payloads: text, tags, HTML(), empty, non-ASCII, equal text as str and HTML(), three pairs of 6 KB / 140 KB / 1.2 MB payloads differing in one middle character)"], targets=["htmltools._util.hash_deterministic", "htmltools._core.head_content"])
 def h_headcontent_sha1(k: int) -> bool:
     """with the real digest: the name is 'headcontent_' + sha1(rendered content), nothing else"""
     return concrete(_sha1_body, conc(k, 0, 7))
@@ -220,7 +220,12 @@ def h_headcontent_sha1(k: int) -> bool:
 
 def _sha1_body(k: int) -> bool:
     payloads = [("t",), (Tag("title", "x"),), ("a", HTML("<b>")), (), (Tag("style", "p{}"), None), ("é☃",),
-                ("x<y&",), (HTML("x<y&"),)]        # the same text as plain string and as HTML(): different rendered content
+                ("x<y&",), (HTML("x<y&"),),        # the same text as plain string and as HTML(): different rendered content
+                # large payloads of equal length that agree on long prefixes and suffixes and differ in one character in the middle
+                # (inlined bundles): sizes on both sides of 4 KiB, 64 KiB and 1 MiB
+                (HTML("<script>" + "a" * 3000 + "1" + "b" * 3000 + "</script>"),), (HTML("<script>" + "a" * 3000 + "2" + "b" * 3000 + "</script>"),),
+                (HTML("<script>" + "a" * 70000 + "1" + "b" * 70000 + "</script>"),), (HTML("<script>" + "a" * 70000 + "2" + "b" * 70000 + "</script>"),),
+                (HTML("<style>" + "c" * 600000 + "1" + "d" * 600000 + "</style>"),), (HTML("<style>" + "c" * 600000 + "2" + "d" * 600000 + "</style>"),)]
     args = payloads[k]
     want = "headcontent_" + hashlib.sha1(TagList(*args).get_html_string().encode("utf-8")).hexdigest()
     d1, d2 = head_content(*args), head_content(*args)
